@@ -746,8 +746,59 @@ PROPS["C14"] = {"gen": c14,
     "assumptions": ["stream model: read copies what is there, a short read sets failbit (istream.unformatted)"]}
 
 
-PROPS["C15"] = {"gen": lambda tier: c15_bin(tier),
-    "bounds": {"quick": "binary: valid files of 2 records (indices < 3, all label types directed; NoLabel and int undirected) cut at EVERY byte offset 0..len", "thorough": "3 records"},
+TXT_Q = {0: "tokeniser", 1: "loadTextEdgeList", 2: "loadTextVertexLabeledEdgeList", 3: "writeTextEdgeList", 4: "arbitrary-text"}
+
+
+def txt_ob(prop, q, und=0, lab=0, lines=2, llen=6, n=3, emaxw=2, full=False, **kw):
+    if q == 0:
+        strcap, filecap, veccap = llen + 1, 2, 3
+    elif q in (1, 2):
+        strcap, filecap, veccap = 9, lines * 10 + 1, 3
+    elif q == 3:
+        strcap, filecap, veccap = 3, 24 + emaxw * 6 + 1, n
+    else:
+        strcap, filecap, veccap = llen + 1, llen + 1, 11
+    defs = {"N": n, "NM": n, "DUP": 1, "Q": q, "UND": und, "LAB": lab, "LINES": lines, "LLEN": llen, "EMAXW": emaxw, "VERIF_STR_CAP": strcap, "VERIF_FILE_CAP": filecap, "VERIF_VEC_CAP": veccap,
+            "VERIF_LIST_CAP": max(lines, n, 2) + 1, "VERIF_KEY_MAX": 3 if q != 4 else 4, "VERIF_MAP_CAP": 4, "VERIF_SET_CAP": 4}
+    if full:
+        defs["FULLBYTES"] = None
+    nlines = (lines if q in (1, 2) else llen + 1) + 2
+    b = "loadTextVertexLabeledEdgeList=%d,harness=%d,file_set=%d,getline_=%d,operator<<=%d,unordered_map=%d,vector=%d,resize=%d,default=%d" % (nlines, max(llen, lines * 10, 24, n * n + n) + 3, filecap + 2, filecap + 2, filecap + 2, 18, veccap + 2, veccap + 2, max(strcap, 6) + 2)
+    name = {0: "tokeniser-len%d" % llen, 1: "loadTextEdgeList-%s-%dlines%s" % ("und" if und else "dir", lines, "-labelled" if lab else ""), 2: "loadTextVertexLabeledEdgeList-%s-%dlines%s" % ("und" if und else "dir", lines, "-labelled" if lab else ""),
+            3: "writeTextEdgeList-%s%s-n%d-e%d" % ("und" if und else "dir", "-labelled" if lab else "", n, emaxw), 4: "arbitrary-text-len%d%s" % (llen, "-allbytes" if full else "")}[q]
+    ob = {"id": "%s/%s" % (prop, name), "src": "textio.cpp", "defs": defs, "bounds": b, "count_ub": True, "optional_reach": [""], "no_validate": True}
+    ob.update(kw)
+    return ob
+
+
+def c13(tier):
+    obs = [txt_ob("C13", 0, llen=6 if tier == "quick" else 10)]
+    for und in (0, 1):
+        for lab in (0, 1):
+            obs.append(txt_ob("C13", 1, und=und, lab=lab, lines=2 if tier == "quick" else 3, timeout=300 if tier == "quick" else 3400, mem_gb=8 if tier == "quick" else 16))
+            obs.append(txt_ob("C13", 3, und=und, lab=lab, n=3 if not und else 2, emaxw=2))
+        obs.append(txt_ob("C13", 2, und=und, lab=0, lines=2 if tier == "quick" else 3, timeout=300 if tier == "quick" else 3400, mem_gb=8 if tier == "quick" else 16))
+    return obs
+
+
+def c15_txt(tier):
+    obs = [txt_ob("C15", 0, llen=6 if tier == "quick" else 10)]
+    if tier == "quick":
+        obs.append(txt_ob("C15", 4, llen=4, timeout=600, mem_gb=8))
+    else:
+        obs.append(txt_ob("C15", 4, llen=5, timeout=3400, mem_gb=20))
+        obs.append(txt_ob("C15", 4, llen=3, full=True, timeout=3400, mem_gb=20))
+    return obs
+
+
+PROPS["C13"] = {"gen": c13,
+    "bounds": {"quick": "tokeniser: every line of <=6 bytes over {'0','1','a',' ','\\t','#'}; loaders: every well-formed file of 2 lines (comment or edge line, optional leading/trailing blank, 1-2 separating blanks from {space, tab}, single-character vertex tokens 0-2 / a-c, optional one-digit label, last line with or without newline), directed and undirected, NoLabel and int; writer: graphs of 3 (2 undirected) vertices and <=2 edges, labels 0-9",
+               "thorough": "tokeniser lines of <=10 bytes; files of 3 lines"},
+    "outside": "multi-digit vertex indices and labels, files longer than 3 lines, label codecs other than one decimal digit; the direct write-then-load round trip is decided by composition of the writer obligation (exact bytes per enumerated edge) with the loader obligation (every well-formed file loads to exactly its edge lines)",
+    "explanation": "Well-formed files are generated from a symbolic structure, so the expected graph is known by construction; the tokeniser is compared with a reference split on arbitrary lines; the writer's bytes are compared one by one.",
+    "assumptions": ["stream/string model: getline extracts up to and excluding the newline, sets failbit when nothing is extracted"]}
+PROPS["C15"] = {"gen": lambda tier: c15_bin(tier) + c15_txt(tier),
+    "bounds": {"quick": "binary: valid files of 2 records (indices < 3, all label types directed; NoLabel and int undirected) cut at EVERY byte offset 0..len; text: every byte string of <=4 bytes over {'0','1','9','-','+',' ','\\t','#','x','\\n',0x80} through loadTextEdgeList, every line of <=6 bytes through the tokeniser", "thorough": "3 records; text of <=5 bytes over the alphabet and <=3 arbitrary bytes"},
     "outside": "longer files; indices too large to allocate (the model bounds vector sizes by its capacity - an assumption)",
     "explanation": "The buffer is a valid file cut at a symbolic offset; the loader must throw or return exactly the edges of the complete records. A short read leaves its destination partly unwritten, and unwritten / stale locals are nondeterministic in the encoding, so an edge pieced together from a partial record is a reachable assertion failure.",
     "assumptions": ["stream model: a short read copies what is there and sets failbit; once failed nothing is extracted"]}
